@@ -102,6 +102,9 @@ pub use token::{NoneTokenLog, NoneTokenStore, TokenLog, TokenReuseError, TokenSt
 mod token_memory_cache;
 pub use token_memory_cache::TokenMemoryCache;
 
+#[cfg(feature = "verif")]
+pub mod verif;
+
 #[cfg(feature = "arbitrary")]
 use arbitrary::Arbitrary;
 
